@@ -389,6 +389,17 @@ impl C17 {
             if t.run("RegisterAddress::from_hex", ra.to_hex(), || RegisterAddress::from_hex(&ra.to_hex()).ok()) != Some(Some(ra)) {
                 t.rt_fail("RegisterAddress::from_hex", format!("from_hex(to_hex(x)) != x for {}", ra.to_hex()));
             }
+            // a second register of ANOTHER owner under the same (user-chosen) meta, parsed right after the first: what the
+            // first parse left behind must not answer for the second
+            let rb = RegisterAddress::new(ra.meta(), gen::bls_sk(&mut t.cx.rng).public_key());
+            if t.run("RegisterAddress::from_hex", rb.to_hex(), || RegisterAddress::from_hex(&rb.to_hex()).ok()) != Some(Some(rb)) {
+                t.rt_fail("RegisterAddress::from_hex", format!("from_hex(to_hex(x)) != x for {} parsed after {} (same meta, other owner)", rb.to_hex(), ra.to_hex()));
+            }
+            // ... and the same meta followed by bytes that are no public key is still refused
+            let bad = format!("{}{}", &ra.to_hex()[..64], "ff".repeat(48));
+            if t.run("RegisterAddress::from_hex", bad.clone(), || RegisterAddress::from_hex(&bad).is_ok()) == Some(true) {
+                t.rt_fail("RegisterAddress::from_hex", format!("from_hex accepted {bad}: a known meta followed by 48 bytes that are not a BLS public key"));
+            }
             let sa = ScratchpadAddress::new(gen::bls_sk(&mut t.cx.rng).public_key());
             if t.run("ScratchpadAddress::from_hex", sa.to_hex(), || ScratchpadAddress::from_hex(&sa.to_hex()).ok()) != Some(Some(sa)) {
                 t.rt_fail("ScratchpadAddress::from_hex", format!("from_hex(to_hex(x)) != x for {}", sa.to_hex()));
